@@ -15,6 +15,8 @@ def alphabet():
             for d in (0, 3):
                 a.append(P.spell(kind, syl, d))
     a += ['형?', '형!', '형.?♥!♡', '형?♥?', '형.', '형.♥', '항...♥']
+    # a select whose own area is evaluated on the newly selected stack
+    a += ['흑?', '흑!', '흑.?', '흑.!', '흑..?', '흑..!♥', '흑?♥!♡', '흐윽.?♥']
     return list(dict.fromkeys(a))
 
 
